@@ -6,7 +6,7 @@ import sys
 
 VERIF = os.path.dirname(os.path.dirname(os.path.abspath(__file__)))
 REPO = os.environ.get("VERIF_REPO", "/repo")
-sys.path[:0] = [REPO, VERIF, os.path.join(VERIF, ".deps")]
+sys.path[:0] = [REPO, VERIF, os.path.join(VERIF, ".deps"), "/verif/.deps"]
 
 import atheris  # noqa: E402
 
